@@ -19,7 +19,8 @@
 *)
 EXTENDS ThrottleObs
 
-CONSTANTS Jobs, Count, Dyn, V0, V1, ChangeAt, Block, SubmitTimes, Durs, CancelTimes, CancelVals, Horizon, KeepHist, AsShipped_D6, Bug
+CONSTANTS Jobs, Count, Dyn, V0, V1, ChangeAt, Block, SubmitTimes, Durs, CancelTimes, CancelVals, Horizon, KeepHist, AsShipped_D6, Bug,
+          CbDur     \* ticks the client's done-callbacks of a throttled future take (they run on the thread that completes it)
 
 NoOne == <<"none", 0>>
 LOOP == <<"loop", 0>>
@@ -215,26 +216,45 @@ LClear ==      \* event.clear(); next iteration: _eval_throttle() (user code), t
 
 \* ------------------------------------------------------------------ the delegate's work
 G_EFinish(j) == pc[Env(j)] = "e_sleep" /\ now >= edl[j]
+\* Bug = "release_after_callbacks" (seeded change C07-r3m1): the slot release is registered on the delegate future AFTER
+\* the callback that resolves the throttled future, so it only runs when every done-callback of that future has run
+Late == Bug = "release_after_callbacks"
 EFinish(j) ==  \* work ends; first done-callback: running_count.decr(); next visible op: event.set()
   /\ G_EFinish(j)
   /\ IF jst[j] = "handed"
        THEN /\ jst' = [jst EXCEPT ![j] = "done"]
-            /\ running' = IF Bug = "no_decr" THEN running ELSE running - 1
-            /\ pc' = [pc EXCEPT ![Env(j)] = "e_set"]
-            /\ Emit(<<E3("InvokeEnd", "env", now, j, 0, j)>>)
+            /\ IF Late
+                 THEN /\ UNCHANGED running
+                      /\ pc' = [pc EXCEPT ![Env(j)] = "e_cb"] /\ edl' = [edl EXCEPT ![j] = now + CbDur]
+                      /\ Emit(<<E3("InvokeEnd", "env", now, j, 0, j), ESA("Observed", "env", now, j, "FINISHED", 0, j)>>)
+                 ELSE /\ running' = IF Bug = "no_decr" THEN running ELSE running - 1
+                      /\ pc' = [pc EXCEPT ![Env(j)] = "e_set"] /\ UNCHANGED edl
+                      /\ Emit(<<E3("InvokeEnd", "env", now, j, 0, j)>>)
        ELSE /\ pc' = [pc EXCEPT ![Env(j)] = "done"]
-            /\ NoEmit /\ UNCHANGED <<jst, running>>
+            /\ NoEmit /\ UNCHANGED <<jst, running, edl>>
   /\ actor' = Env(j)
-  /\ UNCHANGED <<cfg, queue, gate, evt, woken, batch, wt, wdl, sdl, edl, lastgood, sval, lthr, now>>
+  /\ UNCHANGED <<cfg, queue, gate, evt, woken, batch, wt, wdl, sdl, lastgood, sval, lthr, now>>
 
 G_ESet(j) == pc[Env(j)] = "e_set"
-ESet(j) ==     \* event.set(); second callback resolves the throttled future
+ESet(j) ==     \* event.set(); second callback resolves the throttled future (and runs the client's callbacks)
   /\ G_ESet(j)
   /\ IF Bug = "no_set_on_done" THEN UNCHANGED <<evt, woken>> ELSE SetEvent
-  /\ pc' = [pc EXCEPT ![Env(j)] = "done"]
-  /\ Emit(<<ESA("Observed", "env", now, j, "FINISHED", 0, j)>>)
+  /\ IF Late
+       THEN /\ pc' = [pc EXCEPT ![Env(j)] = "done"] /\ NoEmit /\ UNCHANGED edl
+       ELSE /\ pc' = [pc EXCEPT ![Env(j)] = IF CbDur > 0 THEN "e_cb" ELSE "done"]
+            /\ edl' = [edl EXCEPT ![j] = IF CbDur > 0 THEN now + CbDur ELSE @]
+            /\ Emit(<<ESA("Observed", "env", now, j, "FINISHED", 0, j)>>)
   /\ actor' = Env(j)
-  /\ UNCHANGED <<cfg, queue, running, gate, jst, batch, wt, wdl, sdl, edl, lastgood, sval, lthr, now>>
+  /\ UNCHANGED <<cfg, queue, running, gate, jst, batch, wt, wdl, sdl, lastgood, sval, lthr, now>>
+
+G_ECbEnd(j) == pc[Env(j)] = "e_cb" /\ now >= edl[j]
+ECbEnd(j) ==   \* the client's callbacks have run
+  /\ G_ECbEnd(j)
+  /\ IF Late
+       THEN /\ running' = running - 1 /\ pc' = [pc EXCEPT ![Env(j)] = "e_set"]
+       ELSE /\ UNCHANGED running /\ pc' = [pc EXCEPT ![Env(j)] = "done"]
+  /\ actor' = Env(j) /\ NoEmit
+  /\ UNCHANGED <<cfg, queue, gate, evt, woken, jst, batch, wt, wdl, sdl, edl, lastgood, sval, lthr, now>>
 
 \* ------------------------------------------------------------------ cancel()
 G_CStart(j) == pc[Can(j)] = "c_sleep" /\ now >= cfgK[j]
@@ -262,7 +282,12 @@ G_CLock(j) == pc[Can(j)] = "c_lock"
 CLock(j) ==    \* with self._lock: remove the job if it is still queued
   /\ G_CLock(j)
   /\ IF \E i \in DOMAIN queue : queue[i] = j
-       THEN /\ queue' = SelectSeq(queue, LAMBDA x : x # j)
+       THEN /\ queue' = IF Bug = "rotate_on_cancel"
+                           \* seeded model bug (change C07-r3m2): the search pops from the head and appends to the tail,
+                           \* and stops in the middle of the cycle when it has found the job
+                           THEN LET i == CHOOSE k \in DOMAIN queue : queue[k] = j
+                                IN SubSeq(queue, i + 1, Len(queue)) \o SubSeq(queue, 1, i - 1)
+                           ELSE SelectSeq(queue, LAMBDA x : x # j)
             /\ jst' = [jst EXCEPT ![j] = "cancelled"]
             /\ IF AsShipped_D6
                  THEN /\ pc' = [pc EXCEPT ![Can(j)] = "done"]
@@ -315,13 +340,13 @@ OEnd ==
 
 AnyEnabled ==
   \/ \E j \in Jobs : \/ G_SSleep(j) \/ G_SGate(j) \/ G_SEnter(j) \/ G_SWake(j) \/ G_SLock(j) \/ G_SSet(j)
-                     \/ G_EFinish(j) \/ G_ESet(j) \/ G_CStart(j) \/ G_CLock(j) \/ G_CQSet(j) \/ G_CSet(j)
+                     \/ G_EFinish(j) \/ G_ESet(j) \/ G_ECbEnd(j) \/ G_CStart(j) \/ G_CLock(j) \/ G_CQSet(j) \/ G_CSet(j)
   \/ G_LTop \/ G_LPopSet \/ G_LEnter \/ G_LWake \/ G_LClear \/ G_OEnd \/ G_ChTick
 
 Deadlines ==
   {cfgS[j] : j \in {x \in Jobs : pc[Sub(x)] = "s_sleep"}}
   \cup {sdl[j] : j \in {x \in Jobs : pc[Sub(x)] = "s_blocked"}}
-  \cup {edl[j] : j \in {x \in Jobs : pc[Env(x)] = "e_sleep"}}
+  \cup {edl[j] : j \in {x \in Jobs : pc[Env(x)] \in {"e_sleep", "e_cb"}}}
   \cup {cfgK[j] : j \in {x \in Jobs : pc[Can(x)] = "c_sleep"}}
   \cup (IF pc[LOOP] = "l_blocked" THEN {wdl} ELSE {})
   \cup (IF pc[OBS] = "o_sleep" THEN {Horizon} ELSE {})
@@ -335,7 +360,7 @@ Tick ==
 
 Next ==
   \/ \E j \in Jobs : \/ SSleep(j) \/ SGate(j) \/ SEnter(j) \/ SWake(j) \/ SLock(j) \/ SSet(j)
-                     \/ EFinish(j) \/ ESet(j) \/ CStart(j) \/ CLock(j) \/ CQSet(j) \/ CSet(j)
+                     \/ EFinish(j) \/ ESet(j) \/ ECbEnd(j) \/ CStart(j) \/ CLock(j) \/ CQSet(j) \/ CSet(j)
   \/ LTop \/ LPopSet \/ LEnter \/ LWake \/ LClear \/ OEnd \/ ChTick \/ Tick
 
 Spec == Init /\ [][Next]_vars
